@@ -266,6 +266,48 @@ def run_strings(ctx, n):
     return len(ops)
 
 
+def run_values(ctx, n):
+    """the value-literal grammar: (1) Model/ValueParse.v against parser.rs parse_value through the hook `pvalue` - value, stop
+    offset and nom error class on every scalar spelling alone / with a tail / inside lists and maps, generated nested literals with
+    layout and comments at every position, broken literals and one-character mutations; (2) the statement itself on the
+    implementation: several spellings of one abstract value (layout, comments, quote characters, keyword case, leading zeros, bare
+    or quoted keys) give the same parsed value, stopping at the end of the text."""
+    from .. import vparse
+    texts = vparse.corpus(ctx.seed, n)
+    out = vparse.run(texts, ctx.wd, 'c14vp')
+    stats = {}
+    for t, v, r in out:
+        stats[v] = stats.get(v, 0) + 1
+        if v in ('PVAgree', 'PVAgreeReject', 'PVNotModelled'):
+            continue
+        ctx.failing('value literal %r: parse_value answers %s, the model of the value grammar says otherwise (%s)' % (t[:80], json.dumps(r)[:160], v),
+                    {'class': 'value-grammar-correspondence', 'text': t, 'impl': r, 'verdict': v}, found=False)
+    groups = vparse.spelling_groups(ctx.seed, max(40, n // 10))
+    flat = [s for _, ss in groups for s in ss]
+    res = impl.run_ops_parallel([{'op': 'pvalue', 'text': s} for s in flat], ctx.wd, 'c14sp')
+    k = 0
+    bad = 0
+    for v, ss in groups:
+        rs = res[k:k + len(ss)]; k += len(ss)
+        vals = []
+        for s, r in zip(ss, rs):
+            rr = r.get('res')
+            if not rr or rr[0] != 'Ok' or rr[2] != len(s.encode('utf-8')):
+                ctx.failing('the spelling %r of a value is not read to its end: %s' % (s[:100], json.dumps(rr)[:160]),
+                            {'class': 'value-spelling', 'abstract': repr(v), 'spelling': s, 'impl': rr}, found=True)
+                bad += 1
+                vals = None
+                break
+            vals.append(json.dumps(rr[1], sort_keys=True))
+        if vals and len(set(vals)) != 1:
+            ctx.failing('spellings of one value are read as different values: %r' % (ss,), {'class': 'value-spelling', 'abstract': repr(v), 'spellings': ss, 'values': vals}, found=True)
+    ctx.coverage['value_texts'] = len(texts)
+    ctx.coverage['value_verdicts'] = stats
+    ctx.coverage['value_spelling_groups'] = len(groups)
+    ctx.coverage['evaluations'] += len(texts) + len(flat)
+    return stats.get('PVAgree', 0) + stats.get('PVAgreeReject', 0) + len(groups) - bad
+
+
 def run(ctx):
     ctx.build()
     pr = ctx.proofs('C14')
@@ -273,13 +315,14 @@ def run(ctx):
     n1, progs = run_styles(ctx, 300 if thorough else 40, 6 if thorough else 3)
     n2 = run_semantic(ctx, progs)
     n3 = run_strings(ctx, 600 if thorough else 120)
+    n3 += run_values(ctx, 6000 if thorough else 1500)
     ctx.coverage['distinct_nontrivial'] = n1 + n2 + n3
     ctx.coverage['rule'] = ('generated programs printed under %d single-dimension spellings (exhaustive per token class) and random combinations; AST equality (locations removed) with the '
                             'default spelling; .n / [n] / leading this. / type block vs filter block / default rule compared on verdicts; random strings over an alphabet with both quote '
                             'characters, backslash, #, non-ASCII in both quote styles' % len(SINGLE))
     ctx.coverage['trusted_base'] = [
         'Coq 8.16.1 kernel (coqc), vm_compute; no axioms',
-        'Lex.v (modelled, not verified) + translator tools/gv/tables.py for the keyword tables; hooks ast_dump / lit_dump',
+        'Lex.v, ValueParse.v (modelled, not verified; tied by the hook parse_value_dump: value, stop offset, nom error class) + translator tools/gv/tables.py for the keyword tables; hooks ast_dump / lit_dump',
         'the pretty-printer of tools/gv/gen.py (a spelling the printer cannot produce is not exercised)',
     ]
     ctx.assumptions = ['the type-block equivalence is compared on templates whose Resources is a non-empty map of maps (otherwise the type block raises an error where the filter block FAILs: recorded in DESIGN.md)']
